@@ -25,14 +25,26 @@ def run(chk):
     chk.assume('int32 operands: where scipp itself rejects the arithmetic (DTypeError) the kernel may raise it (statement: '
                '"int32 where scipp supports the arithmetic")')
     # --- elastic kernels: full dtype grid x symbolic unit scales
-    for kname, spec in K.KERNELS.items():
-        names = list(spec['args'])
-        for combo in itertools.product(DTYPES, repeat=len(names)):
-            dts = dict(zip(names, combo))
-            run_grid_case(chk, kname, dts)
-    inelastic_grid(chk)
-    chopper_kernels(chk)
+    for kname in K.KERNELS:
+        chk.section(f'{kname}: dtype grid x symbolic units', symbolic_grid, kname)
+    chk.section('inelastic kernels: dtype grid', inelastic_grid)
+    chk.section('chopper-cascade kernels', chopper_kernels)
     conformance(chk)
+    native_grid(chk)
+
+
+def symbolic_grid(chk, kname):
+    names = list(K.KERNELS[kname]['args'])
+    for combo in itertools.product(DTYPES, repeat=len(names)):
+        run_grid_case(chk, kname, dict(zip(names, combo)))
+
+
+def native_grid(chk):
+    """[B] the grid the property quantifies over, on the real kernels with the real scipp (every unit x dtype cell, one random value each)"""
+    total, cells, fails = K.grid_check(chk, per_kernel=None)
+    chk.bounded_check('kernel-grid', 'real elastic kernels vs mpmath reference: value to rounding, documented unit, dtype contract',
+                      f'all {cells} cells of the unit (ns..s, mm..km/angstrom, ueV..J, deg/rad) x dtype (float64, float32, int64, int32) grid, '
+                      'one random value per cell', total, fails)
 
 
 def run_grid_case(chk, kname, dts):
@@ -144,6 +156,8 @@ def conformance(chk):
 
 
 def replay(rec):
+    if '/bounded/kernel-grid/' in rec['obligation']:
+        return K.replay_grid(rec.get('meta', {}).get('replay') or rec.get('model') or {})
     if rec.get('meta', {}).get('kernel') in K.KERNELS:
         return K.replay_kernel(rec)
     from contracts import C05
